@@ -72,7 +72,7 @@ func drawRVProgramMin(t *rapid.T, minIns, maxIns int) *rvProgram {
 		p.text = append(p.text, fmt.Sprintf("%s rd=%d rs1=%d rs2=%d imm=%d", in.Name, f.Rd, f.Rs1, f.Rs2, f.Imm))
 	}
 	lowReg := func(label string) uint32 { return uint32(1 + uniformInt(t, 7, label)) } // x1..x7
-	srcReg := func(label string) uint32 { return uint32(uniformInt(t, 10, label)) }   // x0..x9
+	srcReg := func(label string) uint32 { return uint32(uniformInt(t, 10, label)) }    // x0..x9
 	target := func(from int, label string) int64 {
 		// index of a target instruction in [0, n)
 		j := uniformInt(t, n, label)
